@@ -81,7 +81,13 @@ func (vc *VC) execCall(fr *Frame, n *Node, instr ssa.Instruction, call *ssa.Call
 		// a value of a named function type with a contract `T.call`: abstract procedure
 		if nt, ok := types.Unalias(call.Value.Type()).(*types.Named); ok {
 			if fc, ok := vc.p.ifaceContracts[typeName(nt)+".call"]; ok {
+				akey := nt.Obj().Name() + ".call"
+				fr.callOrd["@"+akey]++
+				aord := fr.callOrd["@"+akey]
+				fr.ghostArgs = map[string]Val{}
+				vc.ghostAt(fr, n, "before", akey, aord)
 				vc.callFuncTypeContract(fr, n, fc, call, res, vc.val(fr, call.Value), args, instr.Pos(), typeName(nt)+".call")
+				vc.ghostAt(fr, n, "after", akey, aord, res)
 				return n
 			}
 		}
